@@ -37,6 +37,9 @@ type Sym struct {
 	S      Sort
 	T      string
 	Lo, Hi *big.Int
+	// byte of an integer written by encoding/binary (lets Uint64(PutUint64(v)) fold back to v)
+	PartOf    string
+	PartShift int
 }
 
 type StructV struct {
